@@ -110,7 +110,9 @@ def extract(ex, obs):
         delivered = [(t, find_tag(p), 'ws' if via != 'poll' else 'poll')
                      for (t, via, pt, p, w) in s.received if pt == 4]
         out['sessions'][s.ord] = {'cutoff': co, 'events': evs, 'delivered': delivered,
-                                  'accepted': s.expect_accept}
+                                  'accepted': s.expect_accept,
+                                  'overlapping_polls': any(getattr(p, '_overlaps', 0)
+                                                           for p in s.polls)}
     for r in ex.world.reqs:
         role = getattr(r, 'role', None)
         sess = getattr(r, 'sess', None)
@@ -148,6 +150,10 @@ def compare(a, b, actions):
                         o, ea[max(0, i - 1):i + 2], eb[max(0, i - 1):i + 2], i))
         da = [(tag, via) for t, tag, via in sa['delivered'] if t < co]
         db = [(tag, via) for t, tag, via in sb['delivered'] if t < co]
+        if sa.get('overlapping_polls') or sb.get('overlapping_polls'):
+            # with two polls pending at once it is unspecified which of them a packet goes to
+            # (and so what a later poll still finds): the events above are still compared
+            da = db = None
         if da != db:
             raise V('delivered-messages-differ', 'order-or-transport' if sorted(map(str, da)) ==
                     sorted(map(str, db)) else 'set',
